@@ -11,7 +11,7 @@ RULE = ("cases = (pair of equal-length arrays, dtype pair, ufunc) for all arrays
 ASSUMPTIONS = ["numpy on the decoded arrays is the reference (NaN matches NaN)", "float values are dyadic; only correctly rounded float ufuncs",
                "results must satisfy the run-length constructor invariant; two-operand results must have adjacent runs joined"]
 REQUIRED_FEATURES = ["boundaries_coincide", "boundaries_interleave", "boundaries_nested", "result_needs_rejoin", "scalar_left", "undefined_reference",
-                     "histogram", "concatenate", "reduction", "reduction_of_unjoined_array", "same_left_operand_sequence"]
+                     "histogram", "concatenate", "reduction", "reduction_of_unjoined_array", "same_left_operand_sequence", "close_values_beyond_2**53"]
 BOUNDS = {"quick": "all pairs of arrays L<=3 over 3 values x all pairs of {bool,int8,int64,uint8,float64} x 13 binary ufuncs; L=4 for int64 x int64 (5 ufuncs); "
                    "scalars {2, 2.5, True, np.int8(3), np.float32(1.5)} both sides x 13 ufuncs, 6 unary ufuncs, sum/any/all/max/mean, histogram (1-4 bins, with range), "
                    "concatenate of 2-3 arrays, for all arrays L<=4",
@@ -40,6 +40,9 @@ def shards(tier):
     out.append({"seq": 1})
     out.append({"pair": ["f64close", "f64close"], "lmax": 3, "few": 1})
     out.append({"pair": ["f64close", "int64"], "lmax": 2, "few": 1})
+    # 64-bit values next to each other beyond 2**53: numpy compares int64 with uint64 exactly, not through float64
+    for p in (["i64big", "u64big"], ["u64big", "i64big"], ["u64big", "u64big"], ["i64big", "i64big"]):
+        out.append({"pair": p, "lmax": 2, "ufs": ["equal", "not_equal", "less", "greater_equal", "maximum", "subtract", "bitwise_xor"]})
     return out
 
 
@@ -69,8 +72,8 @@ def cases(shard, tier):
         return
     if "pair" in shard:
         d1, d2 = shard["pair"]
-        ufs = BINARY if not shard.get("few") else ["add", "maximum", "equal", "subtract", "logical_and"]
-        nv = lambda d: 3 if d == "f64close" else len(VALS[d])
+        ufs = shard.get("ufs") or (BINARY if not shard.get("few") else ["add", "maximum", "equal", "subtract", "logical_and"])
+        nv = lambda d: 3 if d in ("f64close", "i64big", "u64big") else len(VALS[d])
         for L in range(shard.get("lmin", 1), shard["lmax"] + 1):
             for t1 in itertools.product(range(nv(d1)), repeat=L):
                 for t2 in itertools.product(range(nv(d2)), repeat=L):
@@ -109,6 +112,11 @@ def cases(shard, tier):
 def _arr(dt, t):
     if dt == "f64close":
         return np.array([CLOSE[i % 3] for i in t], dtype=np.float64)
+    if dt == "i64big":
+        acc_big = [2 ** 62 + 1, 2 ** 62, -5]
+        return np.array([acc_big[i % 3] for i in t], dtype=np.int64)
+    if dt == "u64big":
+        return np.array([[2 ** 62, 2 ** 62 + 1, 2 ** 64 - 1][i % 3] for i in t], dtype=np.uint64)
     if dt == "int64big":       # each value fits, their int64 sum does not
         return np.array([[2 ** 62, 2 ** 62 - 1, -(2 ** 62)][i % 3] for i in t], dtype=np.int64)
     return np.array([VALS[dt][i % len(VALS[dt])] for i in t], dtype=dt)
@@ -152,6 +160,8 @@ def check(case, acc):
         run = lambda: f(ra, rb)
         joined = True
         excl = u in FLOAT_EXCLUDED and ("float64" in (d1, d2) or "f64close" in (d1, d2))
+        if "i64big" in (d1, d2) or "u64big" in (d1, d2):
+            acc.feature("close_values_beyond_2**53")
     elif kind == "un":
         f = getattr(np, case[3])
         ref = lambda: f(a)
